@@ -131,7 +131,7 @@ Definition drop_transport (s : st) : st :=
   end.
 
 Definition resolve_waiters (o : outcome) (s : st) : st :=
-  set_waiters [] (fold_left (fun s wd => emit (EvWaiter (fst wd) o) s) (waiters s) s).
+  set_waiters [] (set_trace (rev (map (fun wd => (now s, EvWaiter (fst wd) o)) (waiters s)) ++ trace s) s).
 
 (* the connector task ends *)
 Definition finish (p : phase) (s : st) : st :=
